@@ -87,4 +87,23 @@ CHECKS = {
         assumptions=['for a matching row whose parameter is not a decimal int the statement fixes only: no panic, Code kept; Message may be the text or the X form (accepted either way), "+5" likewise',
                      'the catalogue of documented descriptions is read from errors.go as data'],
     ),
+    'C18': dict(
+        pkg='./c18', test='TestC18', level='exploration',
+        quick=dict(shards=16, checks=8),
+        thorough=dict(shards=16, checks=320, budget_s=3000),
+        level_text=('Every generated case runs the client computation (deterministic 4-argument variant through a tag-guarded export, or the public '
+                    'telegram.GetInputCheckPassword with the client\'s own ephemeral) against an independent SRP-2048 server written from '
+                    'core.telegram.org/api/srp that holds only (salts, g, p, verifier): the right password must verify, a neighbouring password must '
+                    'not; corners (A, B, u, S starting with 1-2 zero bytes) are forced by walking exponents.'),
+        technique='property-based testing (rapid) against a reference SRP server with forced leading-zero corners',
+        rule=('case = (password: arbitrary Unicode 1..200 bytes, other password one edit away or unrelated, salts 0..64 bytes, g in {3,4,7}, server secret b, '
+              'client secret a, forced corner in {none,A,B,u,S} x {1,2} zero bytes, B minimal-length or 256-byte, public or deterministic entry point, '
+              'or an out-of-range B in {0,empty,p,p+1,short,long}, or the empty password). Every case is non-trivial (each costs two 100000-round PBKDF2); '
+              'distinct by hash of all fields.'),
+        must_hit={'quick': ['corner:*', 'badB:*', 'g=3', 'g=4', 'g=7'],
+                  'thorough': ['corner:A1', 'corner:B1', 'corner:u1', 'corner:S1', 'corner:A2', 'corner:B2', 'corner:1', 'public-api', 'empty-password',
+                               'badB:zero', 'badB:p', 'badB:p+1', 'badB:short', 'badB:long', 'B-minimal-length']},
+        assumptions=['group = Telegram\'s 2048-bit prime with g in {3,4,7} (the generators valid for it)', 'crypto/sha256, crypto/sha512, crypto/hmac, math/big of the standard library',
+                     'the reference conventions reproduce the M1 recorded in the repository\'s 2fa_test.go (checked in bin/setup)'],
+    ),
 }
